@@ -34,8 +34,8 @@ Qed.
 Section Bodies.
 Context {F : Type} (round_mul : Z -> F -> option Z) (choice : Z -> Z -> option (list nat)) (argsort : list Z -> list nat).
 
-Lemma SampleN_exact n (fr : F) len col : 0 <= n -> 0 <= len -> choice_ok_at choice len n ->
-  exists idx, SampleN_call round_mul choice argsort n fr len col = HOk idx /\ exact_count len n idx.
+Lemma SampleN_exact n len col : 0 <= n -> 0 <= len -> choice_ok_at choice len n ->
+  exists idx, SampleN_call round_mul choice argsort n len col = HOk idx /\ exact_count len n idx.
 Proof.
   intros Hn Hl C. unfold SampleN_call. destruct (len <=? n) eqn:G.
   - apply Z.leb_le in G. exists (all_idx len). split; [reflexivity|]. destruct (all_idx_valid len Hl) as [V L].
@@ -45,17 +45,17 @@ Proof.
     + lia.
 Qed.
 
-Lemma SampleFrac_exact n0 (fr : F) len col n : 0 <= len -> round_mul len fr = Some n -> 0 <= n <= len ->
+Lemma SampleFrac_exact (fr : F) len col n : 0 <= len -> round_mul len fr = Some n -> 0 <= n <= len ->
   choice_ok_at choice len n ->
-  exists idx, SampleFrac_call round_mul choice argsort n0 fr len col = HOk idx /\ exact_count len n idx.
+  exists idx, SampleFrac_call round_mul choice argsort fr len col = HOk idx /\ exact_count len n idx.
 Proof.
   intros Hl R Hn C. unfold SampleFrac_call. rewrite R. unfold choice_ok_at in C. destruct (choice len n) as [r|].
   - destruct C as [_ [V L]]. exists r. split; [reflexivity|]. split; [exact V|]. lia.
   - lia.
 Qed.
 (* a fraction whose rounded count does not fit is rejected, never silently clipped *)
-Lemma SampleFrac_rejects n0 (fr : F) len col n : round_mul len fr = Some n -> (n < 0 \/ len < n) ->
-  choice_ok_at choice len n -> SampleFrac_call round_mul choice argsort n0 fr len col = HErr EValue.
+Lemma SampleFrac_rejects (fr : F) len col n : round_mul len fr = Some n -> (n < 0 \/ len < n) ->
+  choice_ok_at choice len n -> SampleFrac_call round_mul choice argsort fr len col = HErr EValue.
 Proof.
   intros R Hn C. unfold SampleFrac_call. rewrite R. unfold choice_ok_at in C. destruct (choice len n) as [r|]; [lia|reflexivity].
 Qed.
@@ -94,8 +94,8 @@ Proof.
     apply In_firstn_nth in Ik. destruct Ik as [i [Hi Ei]]. rewrite <- Ei, <- Ej. apply S. lia.
 Qed.
 
-Lemma LastN_exact n (fr : F) len c : 0 <= n -> Z.of_nat (length c) = len -> argsort_ok argsort c ->
-  exists idx, LastN_call round_mul choice argsort n fr len (Some c) = HOk idx /\ exact_count len n idx /\ most_recent c idx.
+Lemma LastN_exact n len c : 0 <= n -> Z.of_nat (length c) = len -> argsort_ok argsort c ->
+  exists idx, LastN_call round_mul choice argsort n len (Some c) = HOk idx /\ exact_count len n idx /\ most_recent c idx.
 Proof.
   intros Hn Hl A. unfold LastN_call. destruct (len <=? n) eqn:G.
   - apply Z.leb_le in G. exists (all_idx len). split; [reflexivity|]. assert (0 <= len) as H0 by lia.
@@ -109,13 +109,13 @@ Proof.
     + rewrite <- Hl, Nat2Z.id. exact V.
     + rewrite L. lia.
 Qed.
-Lemma LastN_missing_field n (fr : F) len : n < len ->
-  LastN_call round_mul choice argsort n fr len None = HErr EType.
+Lemma LastN_missing_field n len : n < len ->
+  LastN_call round_mul choice argsort n len None = HErr EType.
 Proof. intro H. unfold LastN_call. assert ((len <=? n) = false) as T by (apply Z.leb_gt; exact H). rewrite T. reflexivity. Qed.
 
-Lemma LastFrac_exact n0 (fr : F) len c n : round_mul len fr = Some n -> 0 <= n -> Z.of_nat (length c) = len ->
+Lemma LastFrac_exact (fr : F) len c n : round_mul len fr = Some n -> 0 <= n -> Z.of_nat (length c) = len ->
   argsort_ok argsort c ->
-  exists idx, LastFrac_call round_mul choice argsort n0 fr len (Some c) = HOk idx /\ exact_count len n idx /\ most_recent c idx.
+  exists idx, LastFrac_call round_mul choice argsort fr len (Some c) = HOk idx /\ exact_count len n idx /\ most_recent c idx.
 Proof.
   intros R Hn Hl A. unfold LastFrac_call. rewrite R. cbv zeta.
   assert (length (argsort c) = length c) as LO by (destruct A as [P _]; rewrite (Permutation_length P), seq_length; reflexivity).
